@@ -147,10 +147,10 @@ class PipeWorld(World):
                 world.sched.note("write_soon", len(data))
                 return base.write_soon(self, data)
 
-            def send_continue(self):
+            def send_continue(self, *a, **kw):
                 me = world.sched.me()
                 world.sched.note("send_continue", me.name if me else "-")
-                return base.send_continue(self)
+                return base.send_continue(self, *a, **kw)
 
         return PipeChannel
 
